@@ -49,7 +49,29 @@ def lit_features(e):
     return ",".join(feats)
 
 
-def signature(pid, what, source, case, events):
+def stmt_tag(case, events, i):
+    f = _ev(events, "Format")
+    recs = (f.get("stmts") or {}).get("recs") or []
+    meta = case.get("meta", {}) or {}
+    tag = ""
+    if i and 0 < i <= len(recs):
+        r = recs[i - 1]
+        nxt = ""
+        for o in recs[i:]:
+            if len(o["path"]) == len(r["path"]) and o["path"][:-1] == r["path"][:-1]:
+                nxt = o["kind"]
+                break
+        pc = "pcall" in (meta.get("prog") or [])
+        tag = "k=%s,semi=%d,depth=%d,next=%s%s" % (r["kind"], 1 if r.get("semi") else 0, len(r["path"]) // 2, nxt or "-", ",paren-call-present" if pc else "")
+    devs = sorted(set("%s:%s" % (d["t"], (d["x"].split(":")[0] + "/" + d.get("y", "").split(":")[0]) if d["t"] == "range" else d["x"]) for d in meta.get("devs", [])))
+    if devs:
+        tag += ";devs=" + ",".join(devs)
+    return tag
+
+
+def signature(pid, what, source, case, events, i=0):
+    if pid in ("C08", "C09") and _ev(events, "Format").get("stmts"):
+        return "%s|%s|%s" % (source, what, stmt_tag(case, events, i))
     lit = _ev(events, "Lit")
     if lit:
         return "%s|%s|%s|%s" % (source, what, lit.get("kind"), lit_features(lit))
@@ -81,6 +103,9 @@ def signature(pid, what, source, case, events):
         return "%s|census|%s|lost:%s|gained:%s" % (source, tag, ",".join(lost), ",".join(gained))
     if what in ("oscillation", "late_convergence") or what.startswith("second_pass"):
         return "%s|%s|%s|%s" % (source, what, tag, layout_change(x.get("line_a", ""), x.get("line_b", "")))
+    if pid == "C10":
+        cls = [c for c in f.get("lines", {}).get("classes", [])]
+        return "%s|%s|%s" % (source, what, tag)
     if pid == "C07":
         return "%s|%s|%s|%s" % (source, what, tag, strip_pos(f.get("msg", "")))
     return "%s|%s|%s" % (source, what, tag)
